@@ -357,7 +357,8 @@ def main(argv):
             "oracle_assertions_evaluated": asserts,
             "class_histogram": classes,
             "event_counters": events,
-            "distinct_values": {k: len(v) for k, v in sets.items()},
+            "distinct_values": {k: len(v) for k, v in sets.items() if not k.startswith("list:")},
+            "observed_lists": {k[5:]: sorted(v)[:120] for k, v in sets.items() if k.startswith("list:")},
             "inconclusive_cases": len(inconclusive),
             "child_deaths": len([c for c in all_crashes if c["type"] == "death"]),
             "race_reports_distinct": len(race_seen),
